@@ -172,6 +172,24 @@ func newC19World(c *mon.Ctx, g *model.Gen, algs [2]string) (*c19World, error) {
 			return nil, err
 		}
 	}
+	// in a third of the casts one of the valid claims-sets is LARGE (dozens of
+	// software components): still valid, still encodable, so signing it succeeds
+	if g.R.Intn(3) == 0 {
+		if big, berr := psatoken.NewClaims(model.P2Name); berr == nil {
+			a := g.Valid(2)
+			a.Comps = nil
+			for j := 0; j < 40+g.R.Intn(60); j++ {
+				cp := g.ValidComp()
+				cp.MVal, cp.Signer = model.BP(g.Bytes(64)), model.BP(g.Bytes(64))
+				a.Comps = append(a.Comps, cp)
+			}
+			a.Canon, a.Profile = model.P2Name, model.SP(model.P2Name)
+			if obs.SetterApply(big, a) == nil && big.Validate() == nil {
+				w.claims["valid-2"] = big
+				c.Count("casts-with-a-large-claims-set")
+			}
+		}
+	}
 	for _, n := range []string{"invalid", "invalid-t"} {
 		if w.claims[n], _, err = mk(false); err != nil {
 			return nil, err
@@ -587,7 +605,7 @@ func c19Run(c *mon.Ctx, g *model.Gen, w *c19World, ops []c19Op, tag string) int 
 }
 
 func runC19(c *mon.Ctx) {
-	c.Rule(fmt.Sprintf("histories on ONE Evidence (claims attached) over an alphabet of %d operations: SetClaims(valid|invalid), direct assignment of valid/invalid claims (invalid = wrong implementation id / instance id / nonce / life cycle / empty VSI, or profile 1 carrying both a component list and the no-software-measurements flag), outside mutation of the attached claims, Sign / ValidateAndSign with signers {working key 0, working key 1, returns error, returns error AND bytes, returns (nil,nil), returns empty, returns garbage of right / wrong length, reports an unsupported algorithm, reports the reserved algorithm}, UnmarshalCOSE of {valid token by key 0 / key 1, validly signed token with invalid claims, tampered token, garbage, empty input, validly signed envelope whose payload does not decode as claims, the token this Evidence produced last}; after EVERY operation Verify is probed with key 0, key 1, an unrelated key, nil and four key-container-shaped non-keys (empty / nil key slice, empty any-slice, empty struct) in random order. All histories of length <= 3 are enumerated exhaustively (fault kinds x positions), plus seeded random histories of length 4..30; algorithms rotate over ES256/384/512, EdDSA, PS256/384/512. Trace checker (model: attached claims identity, last envelope = none | token T | unknown-after-failed-decode, claims-replaced flag): a failed op returns no bytes; working signer + encodable (valid for ValidateAndSign) claims => success, also after any number of failures; every produced token verifies independently and on its own, its payload = encoding of the attached claims; after a failed sign every Verify fails; after producing/consuming token T, Evidence.Verify(pk) <=> independent verifier(T, pk); whenever Verify succeeds and claims were not replaced since the last sign/decode attempt, the held signature covers the held protected+payload under pk (hook H2 + stdlib crypto) and the attached claims are nil or equal to the decoding of that payload. distinct_nontrivial = distinct operation sequences (length<=3: all; longer: distinct op-kind sequences)", len(c19Alphabet)))
+	c.Rule(fmt.Sprintf("histories on ONE Evidence (claims attached) over an alphabet of %d operations: SetClaims(valid|invalid; in a third of the casts one valid set has 40-100 software components), direct assignment of valid/invalid claims (invalid = wrong implementation id / instance id / nonce / life cycle / empty VSI, or profile 1 carrying both a component list and the no-software-measurements flag), outside mutation of the attached claims, Sign / ValidateAndSign with signers {working key 0, working key 1, returns error, returns error AND bytes, returns (nil,nil), returns empty, returns garbage of right / wrong length, reports an unsupported algorithm, reports the reserved algorithm}, UnmarshalCOSE of {valid token by key 0 / key 1, validly signed token with invalid claims, tampered token, garbage, empty input, validly signed envelope whose payload does not decode as claims, the token this Evidence produced last}; after EVERY operation Verify is probed with key 0, key 1, an unrelated key, nil and four key-container-shaped non-keys (empty / nil key slice, empty any-slice, empty struct) in random order. All histories of length <= 3 are enumerated exhaustively (fault kinds x positions), plus seeded random histories of length 4..30; algorithms rotate over ES256/384/512, EdDSA, PS256/384/512. Trace checker (model: attached claims identity, last envelope = none | token T | unknown-after-failed-decode, claims-replaced flag): a failed op returns no bytes; working signer + encodable (valid for ValidateAndSign) claims => success, also after any number of failures; every produced token verifies independently and on its own, its payload = encoding of the attached claims; after a failed sign every Verify fails; after producing/consuming token T, Evidence.Verify(pk) <=> independent verifier(T, pk); whenever Verify succeeds and claims were not replaced since the last sign/decode attempt, the held signature covers the held protected+payload under pk (hook H2 + stdlib crypto) and the attached claims are nil or equal to the decoding of that payload. distinct_nontrivial = distinct operation sequences (length<=3: all; longer: distinct op-kind sequences)", len(c19Alphabet)))
 	if err := extprof.Register(extprof.ExtP2Name); err != nil {
 		c.Violation("harness/register", err.Error(), nil)
 		return
